@@ -9,7 +9,7 @@ from .. import core
 
 THEOREMS = ['Pk.C14.C14_economy', 'Pk.C14.C14_rank_rule', 'Pk.C14.C14_cutoff', 'Pk.C14.C14_cutoff_count', 'Pk.C14.C14_cutoff_le',
             'Pk.C14.C14_slices_consistent', 'Pk.C14.C14_rank_zero_raises', 'Pk.C14.C14_validation',
-            'Pk.C14.C14_kept_orthonormal', 'Pk.C14.C14_residual', 'Pk.C14.C14_best_frobenius', 'Pk.C14.C14_best_spectral', 'Pk.C14.C14_svd_exists']
+            'Pk.C14.C14_kept_orthonormal', 'Pk.C14.C14_residual', 'Pk.C14.C14_best_frobenius', 'Pk.C14.C14_best_spectral', 'Pk.C14.C14_svd_exists', 'Pk.C14.C14_singular_values_unique']
 METHODS = ['economy', 'rank', 'cutoff', 'known_noise', 'unknown_noise', 'bogus']
 
 
@@ -104,14 +104,262 @@ def oracle_factors(X, t, method, param):
     return None
 
 
+def exact_rank(A):
+    """rank of an integer matrix, exactly (fraction elimination on its Gram matrix, which has the same rank)"""
+    A = np.asarray(A, dtype=np.int64)
+    G = [[Fraction(int(v)) for v in row] for row in (A.T @ A)]
+    n, r = len(G), 0
+    for j in range(n):
+        p = next((i for i in range(r, n) if G[i][j] != 0), None)
+        if p is None:
+            continue
+        G[r], G[p] = G[p], G[r]
+        for i in range(r + 1, n):
+            if G[i][j] != 0:
+                f = G[i][j] / G[r][j]
+                G[i] = [a - f * b for a, b in zip(G[i], G[r])]
+        r += 1
+    return r
+
+
+TALL_KINDS = ['integer dependent columns', 'repeated columns', 'constant columns', 'sum of other columns',
+              'graded singular values', 'one tiny singular value', 'badly scaled columns', 'nearly dependent columns',
+              'monomials of a small state']
+
+
+def gen_tall(rng):
+    """a TALL matrix (n_samples = 2..50 x n_features, mostly >= 8 x) that is exactly rank-deficient or ill-conditioned
+    (cond 1e4..1e9). Returns X, the kind, and what is known about it BY CONSTRUCTION: 'rank' (exact / numerical rank,
+    the remaining singular values are zero up to round-off of the data) and / or 'sigma' (the singular values)."""
+    rs = np.random.RandomState(rng.randint(0, 2 ** 31 - 1))
+    kind = rng.choice(TALL_KINDS)
+    n = rng.randint(2, 8)
+    ratio = rng.choice([8, 8, 9, 12, 16, 25, 40, 50, rng.randint(2, 7)])
+    m = n * ratio + rng.randint(0, n - 1)
+    known = {}
+
+    def columns(k):
+        """k linearly independent columns of ordinary size"""
+        return rs.randn(m, k) * (1 + rs.rand(1, k))
+
+    if kind == 'integer dependent columns':
+        k = rng.randint(1, n - 1)
+        t = np.arange(m)
+        if rng.random() < 0.5:
+            per = rng.sample([2, 3, 5, 7, 11, 13], k) if k <= 6 else None
+        else:
+            per = None
+        if per is not None:
+            B = np.column_stack([(t % p) - p // 2 for p in per])
+        else:
+            B = rs.randint(-4, 5, (m, k))
+        C = np.zeros((k, n), dtype=np.int64)
+        where = rng.sample(range(n), k)
+        for i, j in enumerate(where):
+            C[i, j] = 1
+        for j in range(n):
+            if j not in where:
+                C[:, j] = rs.randint(-2, 3, k)
+        X = (B @ C).astype(rng.choice(['float64', 'float64', 'int64']))
+        known['rank'] = exact_rank(B @ C)
+    elif kind == 'repeated columns':
+        k = rng.randint(1, n - 1)
+        A = columns(k)
+        src = list(range(k)) + [rng.randrange(k) for _ in range(n - k)]
+        rng.shuffle(src)
+        X = np.column_stack([A[:, j] * rng.choice([1.0, 1.0, 2.0, -1.0, 0.5]) for j in src])     # exact multiples
+        known['rank'] = k
+    elif kind == 'constant columns':
+        n_const = rng.randint(2, n) if n > 2 else 2
+        k = n - n_const
+        consts = [rng.choice([1.0, 1.0, 0.0, -3.0, 0.5, 7.0]) for _ in range(n_const)]
+        if rng.random() < 0.5:
+            consts = [consts[0]] * n_const
+        cols = [np.full(m, c) for c in consts] + [columns(1)[:, 0] for _ in range(k)]
+        rng.shuffle(cols)
+        X = np.column_stack(cols)
+        known['rank'] = k + (1 if any(c != 0 for c in consts) else 0)
+    elif kind == 'sum of other columns':
+        k = rng.randint(1, n - 1)
+        A = columns(k)
+        cols = [A[:, j] for j in range(k)]
+        for _ in range(n - k):
+            w = [rng.choice([0.0, 1.0, 1.0, -1.0, 0.5, 3.0]) for _ in range(k)]
+            if not any(w):
+                w[0] = 1.0
+            cols.append(sum(wi * A[:, j] for j, wi in enumerate(w)))
+        rng.shuffle(cols)
+        X = np.column_stack(cols)
+        known['rank'] = k
+    elif kind in ('graded singular values', 'one tiny singular value'):
+        cond = 10.0 ** rng.uniform(4, 9)
+        if kind == 'graded singular values':
+            sig = np.logspace(0, -np.log10(cond), n)
+        else:
+            sig = np.sort(np.r_[1 + rs.rand(n - 1), 1 / cond])[::-1]
+            sig = sig / sig[0]
+        U, _ = np.linalg.qr(rs.randn(m, n))
+        V, _ = np.linalg.qr(rs.randn(n, n))
+        X = (U * sig) @ V.T
+        known['sigma'] = sig
+        known['cond'] = cond
+    elif kind == 'badly scaled columns':
+        e = [0.0] + [rng.uniform(0, 9) for _ in range(n - 1)]
+        e[rng.randrange(1, n)] = rng.uniform(4, 9)
+        rng.shuffle(e)
+        X = columns(n) * (10.0 ** -np.array(e))
+    elif kind == 'nearly dependent columns':
+        A = columns(n)
+        j = rng.randrange(n)
+        others = [i for i in range(n) if i != j]
+        pick = rng.sample(others, min(len(others), rng.randint(1, 2)))
+        A[:, j] = sum(A[:, i] for i in pick) + 10.0 ** -rng.uniform(4, 9) * rs.randn(m)
+        X = A
+    else:
+        n = min(n, rng.randint(2, 4))
+        m = n * ratio + rng.randint(0, n - 1)
+        amp = 10.0 ** -rng.uniform(1, 3)
+        x = amp * rs.uniform(-1, 1, m)
+        first = rng.choice([0, 1])
+        X = np.column_stack([x ** p for p in range(first, first + n)])
+    X = X * rng.choice([1, 1, 1, 1000, 0.001]) if X.dtype.kind == 'f' else X
+    if rng.random() < 0.15:
+        X = np.ascontiguousarray(X.T)        # the same matrix, wide
+        kind += ' (transposed)'
+    return X, kind, known
+
+
+def tall_rules(rng, X, sv, known):
+    """truncation rules for one matrix: economy, a rank and a cutoff - preferring those that KEEP the small singular
+    values. For cutoff only values in a clear gap of the spectrum are used (a factor 100 away from every singular
+    value, not below 1e-12 * largest), so that the retained rank is determined by the matrix and not by round-off;
+    the third entry is that retained rank."""
+    full = len(sv)
+    nr = known.get('rank', full)
+    rules = [('economy', None, full)]
+    r = rng.choice([full, full, full + 2, min(full, nr + 1), nr, rng.randint(1, full)])
+    r = max(1, r)
+    rules.append(('rank', r, min(r, full)))
+    smax = sv[0]
+    cands = [1e-11 * smax, 1e-12 * smax, 0.3 * sv[-1], 0.01 * sv[-1]]
+    cands += [float(np.sqrt(sv[i] * sv[i + 1])) for i in range(full - 1) if sv[i + 1] > 0]
+    if nr < full:
+        cands += [1e-6 * sv[nr - 1], 1e-9 * sv[nr - 1]] if nr >= 1 else []
+    rng.shuffle(cands)
+    for c in cands:
+        if c < 1e-12 * smax or not np.isfinite(c):
+            continue
+        if all(s > 100 * c or s < c / 100 for s in sv):
+            keep = int(np.sum(sv > c))
+            if keep >= 1 and ('rank' not in known or keep <= nr):
+                rules.append(('cutoff', float(c), keep))
+                break
+    return rules
+
+
+def oracle_tall(X, t, method, param, expect_rank, sv, known):
+    """the property stated directly, with tolerances RELATIVE TO THE LARGEST SINGULAR VALUE (what a backward-stable SVD
+    delivers is ~1e-15): orthonormal columns, ordering, retained rank, kept values = leading singular values (numpy
+    reference, values known by construction, exact rank), (q_i, s_i, z_i) singular triplets of X, and the
+    approximation error equal to the discarded tail in spectral and Frobenius norm."""
+    Q, s, Z = t.left_singular_vectors_, t.singular_values_, t.right_singular_vectors_
+    X = np.asarray(X, dtype=float)
+    r = s.shape[0]
+    smax = sv[0]
+    if Q.shape != (X.shape[0], r) or Z.shape != (X.shape[1], r):
+        return f'factor shapes {Q.shape} {s.shape} {Z.shape} inconsistent'
+    if r != expect_rank:
+        return f'{method} {param}: retained rank {r}, the rule gives {expect_rank}'
+    if not (np.all(np.isfinite(Q)) and np.all(np.isfinite(s)) and np.all(np.isfinite(Z))):
+        return 'factors are not finite'
+    eq = float(np.max(np.abs(Q.T @ Q - np.eye(r))))
+    ez = float(np.max(np.abs(Z.T @ Z - np.eye(r))))
+    if eq > 1e-11:
+        return f'left singular vectors are not orthonormal: max|Q^T Q - I| = {eq:.3g}'
+    if ez > 1e-11:
+        return f'right singular vectors are not orthonormal: max|Z^T Z - I| = {ez:.3g}'
+    if np.any(s < 0) or np.any(np.diff(s) > 1e-13 * smax):
+        return 'singular values are not non-negative and non-increasing'
+    tol = 1e-11 * smax
+    k = min(r, len(sv))
+    if np.max(np.abs(s[:k] - sv[:k])) > tol:
+        return (f'kept singular values are not the leading singular values: off by '
+                f'{np.max(np.abs(s[:k] - sv[:k])) / smax:.3g} x largest')
+    if 'sigma' in known:
+        want = np.asarray(known['sigma'])[:k] * (smax / known['sigma'][0])
+        if np.max(np.abs(s[:k] - want)) > 10 * tol:
+            return (f'kept singular values differ from those the matrix was built with by '
+                    f'{np.max(np.abs(s[:k] - want)) / smax:.3g} x largest')
+    if 'rank' in known and r > known['rank'] and np.max(s[known['rank']:]) > tol:
+        return (f'the matrix has rank {known["rank"]} but singular value number {known["rank"] + 1} is reported as '
+                f'{np.max(s[known["rank"]:]) / smax:.3g} x largest')
+    if method == 'cutoff' and np.any(s <= param):
+        return 'cutoff: a kept value does not exceed the cutoff'
+    e1 = float(np.max(np.abs(X @ Z - Q * s)))
+    e2 = float(np.max(np.abs(X.T @ Q - Z * s)))
+    if e1 > tol or e2 > tol:
+        return (f'(q_i, s_i, z_i) are not singular triplets: max|X Z - Q S| = {e1 / smax:.3g}, '
+                f'max|X^T Q - Z S| = {e2 / smax:.3g} (x largest singular value)')
+    R = X - (Q * s) @ Z.T
+    tail = sv[r:]
+    if abs(np.linalg.norm(R, 2) - (tail[0] if len(tail) else 0.0)) > tol:
+        return (f'Q diag(s) Z^T is not the best approximation of rank {r}: spectral error '
+                f'{np.linalg.norm(R, 2) / smax:.3g}, optimum {(tail[0] if len(tail) else 0.0) / smax:.3g} (x largest)')
+    if abs(np.linalg.norm(R) - float(np.sqrt(np.sum(tail ** 2)))) > tol:
+        return (f'Q diag(s) Z^T is not the best approximation of rank {r}: Frobenius error '
+                f'{np.linalg.norm(R) / smax:.3g}, optimum {float(np.sqrt(np.sum(tail ** 2))) / smax:.3g} (x largest)')
+    return None
+
+
+def tall(ctx, n_cases, stop_at_first=False):
+    for i in range(n_cases):
+        X, kind, known = gen_tall(ctx.rng)
+        sv = np.linalg.svd(np.asarray(X, dtype=float), compute_uv=False)
+        if not (np.all(np.isfinite(sv)) and sv[0] > 0):
+            continue
+        for method, param, expect in tall_rules(ctx.rng, X, sv, known):
+            case = {'tall': kind, 'shape': list(X.shape), 'method': method, 'param': param}
+            try:
+                t = pykoop.Tsvd(truncation=method, truncation_param=param).fit(X)
+            except Exception as e:
+                ctx.fail(f'Tsvd.fit raised {type(e).__name__}: {str(e)[:200]} on a valid matrix and rule',
+                         dict(case, X=np.asarray(X).tolist()), {'method': method})
+                if stop_at_first:
+                    return
+                continue
+            ctx.count('tall:' + kind.replace(' (transposed)', ''))
+            if kind.endswith('(transposed)'):
+                ctx.count('tall:transposed (wide)')
+            ctx.count('tall:n_samples >= 8 n_features' if X.shape[0] >= 8 * X.shape[1] else 'tall:n_samples < 8 n_features')
+            ctx.count('tall:rule ' + method + (' keeps values below 1e-4 x largest' if expect > int(np.sum(sv > 1e-4 * sv[0]))
+                                               else ' keeps only large values'))
+            ctx.record_case(case, True)
+            why = oracle_tall(X, t, method, param, expect, sv, known)
+            if why:
+                ctx.fail(f'{kind} {X.shape[0]}x{X.shape[1]}, {method} {param}: {why}',
+                         dict(case, X=np.asarray(X).tolist(), known={k: np.asarray(v).tolist() for k, v in known.items()}),
+                         {'method': method})
+                if stop_at_first:
+                    return
+
+
 def run(ctx):
     ctx.rule = ('singular-value lists of length 1..6 with dyadic rational entries (ties, zeros, values equal to the '
                 'cutoff) realised exactly as signed-permutation diagonal matrices (tall / square / wide); all six '
                 'truncation names (incl. an invalid one) with missing, negative, boundary and oversized parameters; '
-                'plus random dense matrices (rank-deficient, repeated values) for the factor checks')
+                'plus random dense matrices (rank-deficient, repeated values) for the factor checks; plus TALL matrices '
+                '(n_samples = 2..50 x n_features, mostly >= 8 x; 2..8 features; some transposed; units 1e-3 / 1 / 1e3) that '
+                'are exactly rank-deficient (integer dependent / repeated / constant / summed columns) or ill-conditioned '
+                '(cond 1e4..1e9: graded or one tiny singular value, badly scaled or nearly dependent columns, monomials of '
+                'a small state), each under economy, a rank (mostly above the numerical rank) and a cutoff in a clear gap '
+                'of the spectrum (mostly below the small values)')
     ctx.explanation = ('theorems C14_* about the truncation rule; correspondence: retained rank / ValueError compared '
                        'exactly with the model (optht methods: model says opaque, factors still validated); oracle: '
-                       'orthonormality, ordering, leading triplets, best approximation against numpy.linalg.svd')
+                       'orthonormality, ordering, leading triplets, best approximation against numpy.linalg.svd; for '
+                       'the tall rank-deficient / ill-conditioned matrices the tolerances are relative to the largest '
+                       'singular value (1e-11; the unchanged code is within 3e-14): retained rank from the rule, kept values '
+                       'against the numpy reference, the values the matrix was built with and its exact rank (fraction '
+                       'elimination), X Z = Q S and X^T Q = Z S, spectral and Frobenius error equal to the discarded tail')
     ctx.proof_obligations('Properties.C14', THEOREMS)
     drv = ctx.get_driver()
     lines, meta = [], []
@@ -200,8 +448,15 @@ def run(ctx):
                 if stop_at_first:
                     return
     dense(ctx.n(120, 1500))
-    # a broken proof / correspondence with no failing input so far: a larger population (same oracle)
-    return ctx.finish('proof', lambda c: dense(1500, True))
+    # tall matrices that are rank-deficient or ill-conditioned, with rules that keep the small singular values
+    tall(ctx, ctx.n(150, 1800))
+
+    def search(c):
+        dense(1500, True)
+        if not ctx.failures:
+            tall(ctx, 1500, True)
+    # a broken proof / correspondence with no failing input so far: a larger population (same oracles)
+    return ctx.finish('proof', search)
 
 
 def replay(ctx, path):
